@@ -384,6 +384,7 @@ Proof.
     rewrite <- (proj1 (cc_scope_rebuild s c nc)). apply cc_cache_ok. exact Hc.
   - cbn. auto.
   - destruct (volx_refines s c Hc) as [E1 E2]. destruct (volx s c). cbn in *. subst. auto.
+  - cbn. repeat split; try discriminate. exact Hc.
 Qed.
 
 Lemma run_refines : forall ops s c, cache_ok s c -> run (s, c) ops = prun s ops.
